@@ -91,6 +91,8 @@ static void _request_later_processing(TickitRootWindow *root);
 static void _request_hierarchy_change(HierarchyChangeType, TickitWindow *);
 static void _do_hierarchy_change(HierarchyChangeType change, TickitWindow *parent, TickitWindow *win);
 static void _purge_hierarchy_changes(TickitWindow *win);
+static bool _is_within(const TickitWindow *win, const TickitWindow *ancestor);
+static bool _is_in_tree(const TickitWindow *tree, const TickitWindow *win);
 static int _handle_key(TickitWindow *win, TickitKeyEventInfo *args);
 static TickitWindow *_handle_mouse(TickitWindow *win, TickitMouseEventInfo *args);
 
@@ -155,6 +157,9 @@ static int on_term_mouse(TickitTerm *term, TickitEventFlags flags, void *_info, 
   DEBUG_LOGF("Im", "Mouse event %s %d @%d,%d (mod=%02x)",
       evnames[info->type], info->button, info->col, info->line, info->mod);
 
+  /* A handler might drop the last reference to the root window */
+  tickit_window_ref(win);
+
   if(info->type == TICKIT_MOUSEEV_PRESS) {
     /* Save the last press location in case of drag */
     root->mouse_last_button = info->button;
@@ -169,7 +174,14 @@ static int on_term_mouse(TickitTerm *term, TickitEventFlags flags, void *_info, 
       .col    = root->mouse_last_col,
     };
 
-    root->drag_source_window = _handle_mouse(win, &draginfo);
+    TickitWindow *source = _handle_mouse(win, &draginfo);
+    /* The handler may have closed or destroyed the window it ran on; only
+     * compare the pointer, do not look inside
+     */
+    if(source && !_is_in_tree(win, source))
+      source = NULL;
+
+    root->drag_source_window = source;
     root->mouse_dragging = true;
   }
   else if(info->type == TICKIT_MOUSEEV_RELEASE && root->mouse_dragging) {
@@ -212,6 +224,8 @@ static int on_term_mouse(TickitTerm *term, TickitEventFlags flags, void *_info, 
 
     _handle_mouse(root->drag_source_window, &draginfo);
   }
+
+  tickit_window_unref(win);
 
   return !!handled;
 }
@@ -274,6 +288,10 @@ TickitWindow* tickit_window_new_root2(Tickit *t, TickitTerm *term)
       &on_term_mouse, root);
 
   root->mouse_dragging = false;
+  root->mouse_last_button = 0;
+  root->mouse_last_line = -1;
+  root->mouse_last_col = -1;
+  root->drag_source_window = NULL;
 
   tickit_window_expose(ROOT_AS_WINDOW(root), NULL);
 
@@ -971,6 +989,19 @@ static bool _is_within(const TickitWindow *win, const TickitWindow *ancestor)
   return false;
 }
 
+/* Search by address only; win might no longer be valid memory */
+static bool _is_in_tree(const TickitWindow *tree, const TickitWindow *win)
+{
+  if(tree == win)
+    return true;
+
+  for(const TickitWindow *child = tree->first_child; child; child = child->next)
+    if(_is_in_tree(child, win))
+      return true;
+
+  return false;
+}
+
 /* Forget every queued request about win or any window below it */
 static void _purge_hierarchy_changes(TickitWindow *win)
 {
@@ -982,6 +1013,11 @@ static void _purge_hierarchy_changes(TickitWindow *win)
     return;
 
   TickitRootWindow *root = WINDOW_AS_ROOT((TickitWindow *)top);
+
+  /* Likewise the drag source, which will receive no further events */
+  if(root->drag_source_window && _is_within(root->drag_source_window, win))
+    root->drag_source_window = NULL;
+
   HierarchyChange **changep = &root->hierarchy_changes;
   while(*changep) {
     HierarchyChange *req = *changep;
